@@ -653,7 +653,7 @@ impl Property for C13 {
          of all reachable nodes (kind, name, data, child list, attribute set, parent) is taken before and after, the DOM Level 1 specification of the call is applied to the \
          pre-state (own implementation: hierarchy rules, WRONG_DOCUMENT / NOT_FOUND / INUSE_ATTRIBUTE / INDEX_SIZE / INVALID_CHARACTER conditions, 'a node already in the tree \
          is first removed', character-data arithmetic) and the outcome must be admissible: success with exactly the specified post-state, or one of the specified exception \
-         classes with the pre-state unchanged; a panic is never admissible. Non-trivial = a call whose receiver and argument are related (ancestor/descendant/sibling/foreign) or \
+         classes with the pre-state unchanged; a panic is never admissible. A quarter of the histories run in the merged-text view, where panics, exception classes and atomic failure are judged but effects are not compared (adjacent pieces are presented as one node there). Non-trivial = a call whose receiver and argument are related (ancestor/descendant/sibling/foreign) or \
          that is specified to fail; distinct by operation list."
             .into()
     }
@@ -683,9 +683,7 @@ impl Property for C13 {
             .prop_map(move |genes| {
                 let mut g = Genes::new(genes);
                 let cfg = HistCfg { max_ops, safe_strings: false, w_struct: 8, w_attr: 5, w_chardata: 4, w_create: 5, huge_offsets: true, max_doc: 5, w_compound: 4 };
-                let mut h = hist::gen_history(&mut g, &cfg);
-                h["merged"] = serde_json::json!(false);
-                h
+                hist::gen_history(&mut g, &cfg)
             })
             .boxed()
     }
@@ -694,7 +692,9 @@ impl Property for C13 {
     }
     fn check(&self, case: &Json, obs: &mut Obs) -> Verdict {
         let docs: Vec<String> = case["docs"].as_array().map(|a| a.iter().filter_map(|x| x.as_str().map(|s| s.to_string())).collect()).unwrap_or_default();
-        let mut pool = match Pool::new(&docs, false) {
+        let merged = case["merged"].as_bool().unwrap_or(false);
+        obs.label(if merged { "view:merged" } else { "view:raw" });
+        let mut pool = match Pool::new(&docs, merged) {
             Some(p) => p,
             None => return Verdict::Discard("start-document-rejected".into()),
         };
@@ -824,6 +824,13 @@ impl Property for C13 {
                             obs.label("expect:success");
                             if matches!(kind.as_str(), "append" | "insert_before" | "replace") {
                                 nontrivial = true;
+                            }
+                            if merged {
+                                // the merged-text view presents adjacent pieces as one node, so a child list does not
+                                // change the way the (raw) specification function says; panics, exception classes and
+                                // atomic failure are judged in this view, effects in the raw view
+                                obs.label("merged-view:effect-not-compared");
+                                continue;
                             }
                             // an attribute's value follows from its children: after a structural edit of the
                             // children the value is taken from the library (the children themselves are compared)
